@@ -27,3 +27,4 @@ CHECKS["X04"] = checks_extra.check_findall
 CHECKS["X05"] = checks_extra.check_klatt_open
 CHECKS["X06"] = checks_extra.check_pointobj
 CHECKS["X07"] = checks_extra.check_klattmap
+CHECKS["X08"] = checks_extra.check_pimeasures
